@@ -6,7 +6,7 @@ use prometheus::core::Collector;
 use prometheus::{Counter, CounterVec, Gauge, GaugeVec, IntCounter, IntCounterVec, IntGauge, IntGaugeVec, Opts};
 use std::collections::HashMap;
 
-#[derive(Clone, Copy, Debug, PartialEq)]
+#[derive(Clone, Copy, Debug, PartialEq, serde::Serialize, serde::Deserialize)]
 pub enum CellOp {
     /// counter inc_by / gauge add (power-of-two amount)
     Add(f64),
@@ -27,7 +27,7 @@ pub enum CellOp {
     LocalCloneFlush(f64),
 }
 
-#[derive(Clone, Copy, Debug, PartialEq, Eq)]
+#[derive(Clone, Copy, Debug, PartialEq, Eq, serde::Serialize, serde::Deserialize)]
 pub enum Flavour {
     Counter,
     IntCounter,
@@ -310,5 +310,18 @@ impl Driver for CellDriver {
     }
     fn cell_names(&self, _sh: &Cell) -> HashMap<usize, String> {
         HashMap::new()
+    }
+    fn spec(&self) -> serde_json::Value {
+        serde_json::json!({"kind": "cell", "flavour": self.flavour, "prelude": self.prelude, "programs": self.programs})
+    }
+}
+
+impl CellDriver {
+    pub fn from_spec(v: &serde_json::Value) -> Option<CellDriver> {
+        Some(CellDriver {
+            flavour: serde_json::from_value(v["flavour"].clone()).ok()?,
+            prelude: serde_json::from_value(v["prelude"].clone()).ok()?,
+            programs: serde_json::from_value(v["programs"].clone()).ok()?,
+        })
     }
 }
